@@ -46,6 +46,9 @@ type Contract struct {
 	Ensures   []Clause
 	MayPanic  []Clause
 	Modifies  []string
+	Preserves []string
+	NoSafety  bool
+	InlineDepth int
 	HasMod    bool
 	MaybeNil  map[string]bool
 	Inline    bool
@@ -77,7 +80,7 @@ func (c *Contract) HasProp(p string) bool {
 	return false
 }
 
-var kwRe = regexp.MustCompile(`^(prop|func|lemma|requires|ensures|modifies|may-panic|maybe-nil|inline|trusted|noverify|loop|invariant|unroll|iface)\b(\[[A-Za-z0-9_\-\.]+\])?\s*(.*)$`)
+var kwRe = regexp.MustCompile(`^(prop|func|lemma|requires|ensures|modifies|preserves|nosafety|inline-depth|may-panic|maybe-nil|inline|trusted|noverify|loop|invariant|unroll|iface)\b(\[[A-Za-z0-9_\-\.]+\])?\s*(.*)$`)
 
 // ParseContractFile extracts //@ blocks from one Go file.
 func ParseContractFile(path, pkgPath string) ([]*Contract, error) {
@@ -140,6 +143,21 @@ func ParseContractFile(path, pkgPath string) ([]*Contract, error) {
 					cur.Modifies = append(cur.Modifies, m)
 				}
 			}
+		case "preserves":
+			for _, m := range splitTop(p.text, ',') {
+				m = strings.TrimSpace(m)
+				if m != "" {
+					cur.Preserves = append(cur.Preserves, m)
+				}
+			}
+		case "nosafety":
+			cur.NoSafety = true
+		case "inline-depth":
+			n, err := strconv.Atoi(strings.TrimSpace(p.text))
+			if err != nil {
+				return fmt.Errorf("%s:%d: bad inline-depth", path, p.line)
+			}
+			cur.InlineDepth = n
 		case "maybe-nil":
 			for _, n := range strings.Fields(strings.ReplaceAll(p.text, ",", " ")) {
 				cur.MaybeNil[n] = true
@@ -571,11 +589,14 @@ func verif_modifies_elems[T any](s []T)       {}
 func verif_modifies_map[K comparable, V any](m map[K]V) {}
 func verif_modifies_obj[T any](p *T)          {}
 func verif_modifies_all()                     {}
+func verif_preserves[T any](p *T)             {}
+func verif_preserves_obj[T any](p *T)         {}
 func verif_old[T any](f func() T) T           { return f() }
 func verif_forall[T any](f func(T) bool) bool { return true }
 func verif_exists[T any](f func(T) bool) bool { return true }
 func verif_fresh[T any](p *T) bool             { return true }
 func verif_fresh_slice[T any](s []T) bool      { return true }
+func verif_fresh_map[K comparable, V any](m map[K]V) bool { return true }
 func verif_same_array[T any](a, b []T) bool    { return true }
 func verif_slice_at[T any](a, b []T, off int) bool { return true }
 func verif_slice_off[T any](a []T) int         { return 0 }
@@ -628,6 +649,13 @@ func (c *Contract) Generate() (string, error) {
 			default:
 				fmt.Fprintf(&b, "\tverif_modifies(&(%s))\n", m)
 			}
+		}
+	}
+	for _, m := range c.Preserves {
+		if strings.HasPrefix(m, "obj(") && strings.HasSuffix(m, ")") {
+			fmt.Fprintf(&b, "\tverif_preserves_obj(%s)\n", m[4:len(m)-1])
+		} else {
+			fmt.Fprintf(&b, "\tverif_preserves(&(%s))\n", m)
 		}
 	}
 	// ensures are rewritten first to collect the hoisted old() values
